@@ -63,6 +63,19 @@ static Reg r_loc("locfwd", [](const Args& a) {
   double x, y, z; l.Forward(lat, lon, h, x, y, z); emit(hx(x) + " " + hx(y) + " " + hx(z));
 });
 
+// the local frame itself: origin = geocentric image of (lat0, lon0, h0), axes = east/north/up AT (lat0, lon0) — also at a pole, where
+// the geocentric origin no longer determines the meridian
+static Reg r_locorigin("locorigin", [](const Args& a) {
+  double lat0 = unhx(a[0]), lon0 = unhx(a[1]), h0 = unhx(a[2]);
+  const Geocentric& g = Geocentric::WGS84(); LocalCartesian l(lat0, lon0, h0, g);
+  double sphi, cphi, slam, clam; Math::sincosd(Math::LatFix(lat0), sphi, cphi); Math::sincosd(lon0, slam, clam);
+  current_op() = "locorigin " + hx(g._a) + " " + hx(g._f) + " " + a[0] + " " + a[1] + " " + a[2] + " " + hx(sphi) + " " + hx(cphi) + " " + hx(slam) + " " + hx(clam);
+  std::string o = hx(l._x0) + " " + hx(l._y0) + " " + hx(l._z0); for (int i = 0; i < 9; ++i) o += " " + hx(l._r[i]); emit(o);
+  // Forward at the origin returns the identity rotation (the frame of the point coincides with the frame of the origin)
+  double x, y, z; std::vector<double> M(9); l.Forward(lat0, lon0, h0, x, y, z, M);
+  for (int i = 0; i < 9; ++i) if (!(std::fabs(M[i] - (i % 4 == 0 ? 1.0 : 0.0)) <= 8e-16)) { bad("local-origin-frame", "Forward at the origin does not return the identity rotation"); break; }
+});
+
 static Reg r_props("geoprops", [](const Args& a) {
   // LocalCartesian: rigid motion, origin -> 0, reverse inverts forward
   double lat0 = unhx(a[0]), lon0 = unhx(a[1]), h0 = unhx(a[2]);
@@ -115,6 +128,7 @@ void gv::generate(const std::string& tier, uint64_t seed) {
     if (i < 3) sample(current_op());
     if (i % 5 == 0) {
       double lat0 = r.range(-90, 90), lon0 = r.range(-180, 180), h0 = r.range(-100, 1e4); if (i % 25 == 0) lat0 = r.pick(std::vector<double>{90, -90, 0});
+      run("locorigin", {hx(lat0), hx(lon0), hx(h0)});
       run("locfwd", {hx(lat0), hx(lon0), hx(h0), hx(lat), hx(lon), hx(std::fmin(std::fabs(h), 1e6))});
       run("geoprops", {hx(lat0), hx(lon0), hx(h0), hx(lat), hx(lon), hx(std::fmin(std::fabs(h), 1e6)), hx(r.range(-90, 90)), hx(r.range(-180, 180)), hx(r.range(0, 1e5))});
     }
